@@ -170,6 +170,68 @@ def broadcast_ob(family, which, call, prop):
                       clause='bs_%s_%s broadcasts its operands (x: (), t: (3,), v: (1,)%s) and evaluates element-wise' % (family, which, ', m: (2,3)' if wm else ''))
 
 
+def mixed_batch_ob(family, which, prop):
+    """barrier products on a batch that MIXES the two branches (running maximum below / above the strike): every element is
+    the scalar evaluation of its own branch - no early return or guard may look at the whole batch."""
+    import time
+    from pfv.framework import real_exec
+    wm, st, cl = _sig(family, which, None)
+    snippet = ('import pfhedge.nn.functional as F\n'
+               'x = T(-0.2); t = T(0.6); v = T(0.3); m = T([-0.05, 0.15]); K = 1.3\n'
+               'kw = {"strike": K} if %r else {}\n' % st +
+               'out = F.bs_%s_%s(x, m, t, v, **kw)\n' % (family, which) +
+               'ref = [float(F.bs_%s_%s(x, m[i], t, v, **kw)) for i in range(2)]\n' % (family, which) +
+               'result = {"got": [list(out.shape), out.tolist()], "ref": [[2], ref]}')
+
+    def check():
+        t0 = time.time()
+        import torch
+        import pfhedge.nn.functional as Fm
+        from pfv.torchlib.tensor import Tensor, inline_leaves
+        m0, m1 = tm.var('m0'), tm.var('m1')
+        xb, tb, vb = tm.var('xb'), tm.var('tb'), tm.var('vb')
+        hyps = [tm.gt(K, tm.ZERO), tm.gt(tb, tm.ZERO), tm.gt(vb, tm.ZERO), tm.lt(m0, tm.ZERO), tm.le(xb, m0), tm.gt(m1, tm.ZERO)]
+
+        def run(c):
+            mt = Tensor.fresh(lambda idx: tm.ite(tm.eq(idx[0], tm.IZERO), m0, m1), (2,), torch.float64)
+            kw = dict(log_moneyness=Tensor.fresh(lambda idx: xb, (), torch.float64), max_log_moneyness=mt,
+                      time_to_maturity=Tensor.fresh(lambda idx: tb, (), torch.float64), volatility=Tensor.fresh(lambda idx: vb, (), torch.float64))
+            if st:
+                kw['strike'] = SReal(K)
+            return getattr(Fm, 'bs_%s_%s' % (family, which))(**kw)
+        try:
+            paths = explore(run, hyps, max_paths=16)
+        except Unsupported as e:
+            return Verdict('unknown', 'engine', time.time() - t0, 'out of reach: %s' % e)
+        for p in paths:
+            if p.outcome() != 'returns':
+                from pfv import fc
+                if p.exception is not None and not fc._from_repo_or_contract(p):
+                    return Verdict('unknown', 'engine', time.time() - t0, 'path %s: %s %s' % (p.outcome(), p.exception, p.traceback[-500:]))
+                rr = real_exec(snippet, {})
+                return Verdict('refuted', 'path-exploration', time.time() - t0, 'mixed batch: %s: %s' % (p.outcome(), str(p.exception)[:200]), witness={'m': 'one element below, one above the strike'},
+                               replay={'real': rr, 'confirmed': not rr.get('ok') or rr['result']['got'] != rr['result']['ref']})
+            res = p.result
+            if tuple(res._shape) != (2,):
+                rr = real_exec(snippet, {})
+                return Verdict('refuted', 'shape', time.time() - t0, 'result shape %s, expected (2,)' % (res._shape,), witness={'shape': str(res._shape)},
+                               replay={'real': rr, 'confirmed': not rr.get('ok') or rr['result']['got'] != rr['result']['ref']})
+            for k_, (mk, mh) in enumerate(((m0, [tm.lt(m, tm.ZERO), tm.le(x, m)]), (m1, [tm.gt(m, tm.ZERO), tm.le(x, m)]))):
+                el = inline_leaves(res.at((tm.const(k_, 'I'),)), p.ctx)
+                scal = fterm(family, which, None, B.OPEN + mh)
+                want = tm.subst(scal, {x: xb, t: tb, v: vb, m: mk})
+                r = smt.prove(p.facts(hyps), tm.eq(el, want), timeout_ms=20000)
+                if r.status != 'unsat':
+                    rr = real_exec(snippet, {})
+                    conf = rr.get('ok') and any(abs(a_ - b_) > 1e-9 * max(1.0, abs(b_)) for a_, b_ in zip(rr['result']['got'][1], rr['result']['ref'][1]))
+                    return Verdict('refuted' if (r.status == 'sat' and conf) else 'unknown', r.backend, time.time() - t0,
+                                   'element %d (running maximum %s the strike) of a mixed batch differs from its own scalar evaluation' % (k_, 'below' if k_ == 0 else 'above'),
+                                   witness={'element': tm.show(el)[:300], 'scalar': tm.show(want)[:300]}, replay={'real': rr, 'confirmed': bool(conf)})
+        return Verdict('proved', 'path-exploration + z3 (UF)', time.time() - t0, '%d path(s)' % len(paths), sample={'claim': 'element-wise evaluation on a batch mixing both branches'})
+    return Obligation('%s/bs_%s_%s/mixed-batch' % (prop, family, which), 'post', 'pfhedge.nn.functional.bs_%s_%s' % (family, which), check, [prop],
+                      clause='bs_%s_%s on a batch with one running maximum below and one above the strike: each element equals the scalar evaluation of its own branch' % (family, which))
+
+
 def branches(family):
     if family in ('american_binary',):
         return [('m<0', OPEN + [tm.lt(m, tm.ZERO), tm.le(x, m)], 'neg'), ('m>=0', OPEN + [tm.ge(m, tm.ZERO), tm.le(x, m)], 'pos')]
@@ -424,6 +486,8 @@ def build(tier, seed):
                 if family == 'european' and which != 'delta' and call is False:
                     continue
                 obs.append(broadcast_ob(family, which, call, PROP))
+    for which in ('delta', 'gamma', 'vega', 'theta'):
+        obs.append(mixed_batch_ob('american_binary', which, PROP))
     return {
         'obligations': obs,
         'functions': FUNCTIONS,
